@@ -165,12 +165,13 @@ def impl_run_ops(spec, ops):
         outs = []
         for op in ops:
             if op[0] == 0:
-                outs.append(canon_arr(f.process(np_arr(op[1]))))
+                outs.append(f.process(np_arr(op[1])))
             elif op[0] == 1:
-                outs.append(canon_arr(f.get_remaining()))
+                outs.append(f.get_remaining())
             else:
                 f.reset_state()
-        return [outs, canon_state(f)]
+        # the returned blocks are looked at only now, as a caller that collects them would: a block must not change after it was handed out
+        return [[canon_arr(y) for y in outs], canon_state(f)]
     with np.errstate(all="ignore"):
         import warnings
         with warnings.catch_warnings():
@@ -237,11 +238,14 @@ def stream_impl(spec, sig, cuts):
     """Feed the blocks, flush; returns flattened (dtype,value) samples or an error tuple."""
     def go():
         f = build(spec)
-        out, pos = [], 0
+        blocks, pos = [], 0
         for ln in cuts:
-            out += flat(canon_arr(f.process(np_arr([sig[0], sig[1][pos:pos + ln]]))))
+            blocks.append(f.process(np_arr([sig[0], sig[1][pos:pos + ln]])))
             pos += ln
-        out += flat(canon_arr(f.get_remaining()))
+        blocks.append(f.get_remaining())
+        out = []
+        for y in blocks:            # collected first, read afterwards (see impl_run_ops)
+            out += flat(canon_arr(y))
         return out
     with np.errstate(all="ignore"):
         import warnings
